@@ -27,7 +27,9 @@ pub(crate) fn alloc(ptr: *mut u8, location: Location) {
 
         trace!(?allocation.state, ?ptr, %location, "alloc");
 
-        let prev = execution.raw_allocations.insert(ptr as usize, allocation);
+        let prev = execution
+            .raw_allocations
+            .insert(ptr as usize, std::mem::ManuallyDrop::new(allocation));
         assert!(prev.is_none(), "pointer already tracked");
     });
 }
@@ -47,7 +49,7 @@ pub(crate) fn dealloc(ptr: *mut u8, location: Location) {
         );
 
     // Drop outside of the `rt::execution` block
-    drop(allocation);
+    drop(std::mem::ManuallyDrop::into_inner(allocation));
 }
 
 impl Allocation {
